@@ -3,8 +3,9 @@ from rules.common import *
 from rules.lockorder import LockGraph
 
 TECHNIQUE = ("static analysis: lock-order graph over Mutex/RwLock guard regions with transitive acquire summaries (cycle "
-             "detection), authenticate-before-dispatch dominance (shared with C06-R1), aggregation of the decode/handler "
-             "panic obligations of C03/C04")
+             "detection), authenticate-before-dispatch dominance (shared with C06-R1), aggregation of the necessary conditions "
+             "other properties decide for the same mechanisms (decode panics C03, replay/packet-number C10/C07, "
+             "retransmission wiring C01, timer re-arm C13)")
 LEVEL_TEXT = ("Static analysis of the type-checked MIR of /repo: (R1) frames are dispatched only from packets that passed "
               "header-protection removal, packet-number acceptance and AEAD authentication (the C06-R1 obligations, "
               "re-evaluated here); (R2) the wire-facing decode slice contains no undischarged panic (the C03-R1/R2/R5 "
@@ -12,7 +13,9 @@ LEVEL_TEXT = ("Static analysis of the type-checked MIR of /repo: (R1) frames are
               "lock()/read()/write() or guard-returning wrappers to the guard's Drop, edges held -> acquired through "
               "resolved calls and bounded class-hierarchy fan-out — has no cycle between distinct lock classes, and no "
               "packet-assembly Package::dump impl (all of which run under the sent-journal guard) acquires the "
-              "congestion-controller lock, the inversion the repository documents in burst.rs. Necessary conditions for "
+              "congestion-controller lock, the inversion the repository documents in burst.rs; (R4/R5) the at-most-once acceptance, "
+              "packet-number consumption, retransmission-wiring and timer re-arm obligations of C10/C07/C01/C13 are re-evaluated "
+              "because a connection under loss, duplication and reordering exercises exactly those paths. Necessary conditions for "
               "'never panics or stops making progress'; handshake completion, delivery and bounded-time failure are not decided.")
 NOT_DECIDED = ["handshake completion under bounded faults; bounded-time failure notification; delivery of all application data",
                "deadlocks involving async await points, channels or condition variables", "instance-level (same class, two objects) lock nesting"]
@@ -23,21 +26,35 @@ CC = "qcongestion::congestion::CongestionController"
 def run(ctx):
     prog = ctx.prog
     ctx.rule("R1", "authenticate before dispatch; one forged key-phase bit cannot rotate the keys twice (C06-R1 and C06-R4 re-evaluated)")
-    ctx.rule("R2", "no panic from the wire to the task (C03 obligations re-evaluated)")
+    ctx.rule("R2", "no panic from the wire to the task (C03 R1/R2/R5/R8 obligations re-evaluated)")
+    ctx.rule("R4", "replayed packets are never accepted and packet numbers never reused (C10-R2/R4 and C07-R2 re-evaluated)")
+    ctx.rule("R5", "progress: lost data and a lost FIN are re-offered, completion consults the buffer, the loss-detection timer is "
+                   "re-armed (C01-R1/R3/R4 and C13-R6 re-evaluated)")
     ctx.rule("R3", "lock-order acyclicity between distinct lock classes; no Package::dump acquires the congestion-controller lock")
-    # ---------------------------------------------------------------- R1 / R2 by reference
+    # ---------------------------------------------------------------- R1 / R2 / R4 / R5 by reference
     import importlib
     from qlint import framework as fw
-    for pid, rid, keep in (("C06", "R1", lambda o: o.rule in ("R1", "R4")), ("C03", "R2", lambda o: o.rule in ("R1", "R2", "R5"))):
+    known = set((f["property"], f["key"]) for f in fw.load_known().get("findings", []))
+    INHERIT = (
+        ("C06", "R1", lambda o: o.rule in ("R1", "R4"), 8),
+        ("C03", "R2", lambda o: o.rule in ("R1", "R2", "R5", "R8"), 8),
+        ("C10", "R4", lambda o: o.rule in ("R2", "R4"), 5),
+        ("C07", "R4", lambda o: o.rule in ("R2",), 20),
+        ("C01", "R5", lambda o: o.rule in ("R1", "R3", "R4"), 20),
+        ("C13", "R5", lambda o: o.rule in ("R6",), 3),
+    )
+    for pid, rid, keep, floor_n in INHERIT:
         sub = fw.Ctx(pid, ctx.tier, ctx.seed, prog)
         importlib.import_module("rules." + pid).run(sub)
         n = 0
         for o in sub.obs:
             if keep(o):
+                if not o.ok and (pid, o.key) in known:
+                    continue   # a recorded finding of the owning property is reported there, once
                 n += 1
                 ctx.ob(rid, "%s:%s" % (pid, o.key), o.ok, o.where, o.detail)
         ctx.functions |= sub.functions
-        ctx.floor(rid, "obligations inherited from %s" % pid, n, 8)
+        ctx.floor(rid, "obligations inherited from %s" % pid, n, floor_n)
     # ---------------------------------------------------------------- R3
     lg = LockGraph(prog)
     classes = set()
